@@ -136,3 +136,34 @@ Proof.
   - apply Permutation_nil in Hp. discriminate.
   - apply Permutation_sym, Permutation_nil in Hp. discriminate.
 Qed.
+
+(* ---- VerifyTransaction ---- *)
+(* acceptance = every rule of the list accepts, on the same transaction and the same ledger state *)
+Lemma verify_tx_ok rules t ls : verify_tx rules t ls = ROk <-> forall r, In r rules -> r t ls = ROk.
+Proof.
+  induction rules as [|r rest IH]; cbn [verify_tx In]; [split; [intros _ r []|reflexivity]|].
+  destruct (r t ls) eqn:E.
+  - rewrite IH. split; [intros H x [<-|Hx]; auto|intros H x Hx; apply H; now right].
+  - split; [discriminate|]. intros H. specialize (H r (or_introl eq_refl)). congruence.
+  - split; [discriminate|]. intros H. specialize (H r (or_introl eq_refl)). congruence.
+  - split; [discriminate|]. intros H. specialize (H r (or_introl eq_refl)). congruence.
+  - split; [discriminate|]. intros H. specialize (H r (or_introl eq_refl)). congruence.
+Qed.
+
+(* if every other rule accepts (t, ls), the verdict of the list is the verdict of
+   the withdrawal rule on that same (t, ls), provided the list contains it *)
+Lemma verify_tx_projects other names t ls :
+  (forall n, String.eqb n n_withdrawals = false -> other n t ls = ROk) ->
+  verify_tx (map (rule_sem other) names) t ls =
+  if existsb (fun n => String.eqb n n_withdrawals) names then withdrawals_rule t ls else ROk.
+Proof.
+  intros Ho. induction names as [|n names IH]; [reflexivity|].
+  cbn [map verify_tx existsb]. unfold rule_sem at 1. destruct (String.eqb n n_withdrawals) eqn:E; cbn [orb].
+  - destruct (withdrawals_rule t ls) eqn:W; try reflexivity.
+    rewrite IH. now destruct (existsb _ names).
+  - rewrite (Ho n E). exact IH.
+Qed.
+
+Lemma gated_has_rule era : In era gated_eras ->
+  exists rs, assoc era era_rules = Some rs /\ existsb (fun n => String.eqb n n_withdrawals) rs = true.
+Proof. intros H. cbn in H. repeat destruct H as [<-|H]; try (eexists; split; [vm_compute; reflexivity|vm_compute; reflexivity]). destruct H. Qed.
